@@ -1,5 +1,4 @@
 package main
 
-func cmdCheck(a []string) int    { return 0 }
 func cmdSelftest(a []string) int { return 0 }
 func cmdReplay(a []string) int   { return 0 }
